@@ -12,7 +12,7 @@ skip = set(base.get("skip_handoffs", []))
 notes = {}
 for path in sorted(glob.glob(os.path.join(root, "handoff", "*.json"))):
     name = os.path.basename(path)[:-5]
-    if name in skip:
+    if name in skip or name in base.get("extension_handoffs", []):
         continue
     try:
         h = json.load(open(path))
@@ -55,6 +55,54 @@ for path in sorted(glob.glob(os.path.join(root, "handoff", "*.json"))):
         findings.append(f)
     notes[name] = h.get("design_notes", "")
 index.update(base.get("index_override", {})); manifest.update(base.get("manifest_override", {}))
+
+# ---- extension handoffs (session 3): ADD to an existing property's entry instead of replacing it --------------------
+EXTENSIONS = base.get("extension_handoffs", [])
+for name in EXTENSIONS:
+    path = os.path.join(root, "handoff", name + ".json")
+    if not os.path.exists(path):
+        print("extension handoff missing:", name); continue
+    h = json.load(open(path))
+    missing = [f for f in h.get("files", []) if not os.path.exists(os.path.join(root, f))]
+    if missing:
+        print(f"{name}: missing files {missing}")
+    for k, dst in (("model_imports", model_imports), ("proofs_imports", proofs_imports),
+                   ("drv_imports", drv_imports), ("drv_handlers", drv_handlers)):
+        for x in h.get(k, []):
+            if x not in dst:
+                dst.append(x)
+    for k, v in h.get("proofs_index", {}).items():
+        e = index[k] = _copy.deepcopy(index[k])
+        for fld in ("modules", "gen_modules", "theorems", "witness_modules", "witness_theorems", "trusted_extra"):
+            for x in v.get(fld, []):
+                if x not in e.setdefault(fld, []):
+                    e[fld].append(x)
+        if v.get("assumptions_replace"):
+            e["assumptions"] = list(v.get("assumptions", []))
+        else:
+            drop = set(v.get("assumptions_to_drop", []))
+            e["assumptions"] = [a_ for a_ in e.get("assumptions", []) if a_ not in drop]
+            for a_ in v.get("assumptions", []):
+                if a_ not in e["assumptions"]:
+                    e["assumptions"].append(a_)
+    for k, v in h.get("manifest", {}).items():
+        m = manifest[k] = dict(manifest[k])
+        add = v.get("text_add") or v.get("text_addition")
+        if add and add not in m.get("text", ""):
+            m["text"] = m.get("text", "").rstrip() + " EXTENSION: " + add
+        note = v.get("note") or v.get("note_addition")
+        if note and note not in m.get("note", ""):
+            m["note"] = (m.get("note", "").rstrip() + " | " + note).strip(" |")
+        if v.get("technique"):
+            m["technique"] = v["technique"]
+    for f in h.get("findings", []):
+        if f.get("status") not in ("known", "fixed"):
+            continue
+        key = (f["property"], f["id"])
+        f = dict(f); f.pop("fix_patch", None); f.pop("fix_note", None)
+        findings[:] = [g for g in findings if (g["property"], g["id"]) != key]
+        findings.append(f)
+    notes[name] = h.get("design_notes", "")
 
 def write(p, s):
     p = os.path.join(root, p)
